@@ -57,8 +57,34 @@ pub fn guarded<T>(f: impl FnOnce() -> T) -> Result<T, String> {
     }
 }
 
+/// CPU clock (ms) at which the implementation call in progress started, 0 when none is in progress: the hang watchdog
+/// measures the code under test, not the oracle around it.
+pub static IMPL_STARTED_CPU_MS: std::sync::atomic::AtomicU64 = std::sync::atomic::AtomicU64::new(0);
+
+pub fn cpu_ms() -> u64 {
+    unsafe {
+        let mut ts: libc::timespec = std::mem::zeroed();
+        libc::clock_gettime(libc::CLOCK_PROCESS_CPUTIME_ID, &mut ts);
+        (ts.tv_sec as u64) * 1000 + (ts.tv_nsec as u64) / 1_000_000
+    }
+}
+
+struct ImplTimer;
+impl ImplTimer {
+    fn start() -> ImplTimer {
+        IMPL_STARTED_CPU_MS.store(cpu_ms().max(1), std::sync::atomic::Ordering::SeqCst);
+        ImplTimer
+    }
+}
+impl Drop for ImplTimer {
+    fn drop(&mut self) {
+        IMPL_STARTED_CPU_MS.store(0, std::sync::atomic::Ordering::SeqCst);
+    }
+}
+
 /// `jsonlogic_rs::apply` without trace capture.
 pub fn apply(rule: &Value, data: &Value) -> Out {
+    let _t = ImplTimer::start();
     // the error is rendered inside the guard: its Display is what the CLI and the Python module show
     match guarded(|| jsonlogic_rs::apply(rule, data).map_err(|e| (e.to_string(), format!("{:?}", e).len()))) {
         Ok(Ok(v)) => Out::Ok(v),
